@@ -185,6 +185,10 @@ func (f *RecFSM) Snapshot() (raft.FSMSnapshot, error) {
 	h := f.st.Hash
 	f.mu.Unlock()
 	f.log(Ev{K: "f.snap", A: s.last, C: h})
+	if f.PersistDelay > 0 {
+		// a state machine that takes a while to hand out its snapshot (the state is captured above)
+		time.Sleep(f.PersistDelay / 2)
+	}
 	return s, nil
 }
 
